@@ -142,6 +142,10 @@ def check_case(case):
         zin, zref = None, None
     elif zmode == "allmissing":
         zin, zref = alpha.nd([alpha.NAN] * n), [None] * n
+    elif zmode == "masked":
+        miss = [v == alpha.NAN for v in z]
+        zin = np.ma.MaskedArray(np.array([5.0 if m else float(v) for v, m in zip(z, miss)]), mask=miss)
+        zref = alpha.ref(z)
     else:
         zin, zref = alpha.nd(z), alpha.ref(z)
     cfg = alpha.call(build_config, members, case.get("cfg", "dicts"))
@@ -193,6 +197,8 @@ def run_task(task, acc):
             yield dict(members=members, order=order)
         yield dict(members=members, order="stride", z="allmissing")
         yield dict(members=members, order="stride", z="none")
+        if any("zspan" in m for m in members):
+            yield dict(members=members, order="stride", z="masked")
 
     if kind == "lists01":
         def gen():
